@@ -23,83 +23,130 @@ def live_paths(f):
     return out
 
 
+class _Sym:
+    """A symbolic object of the gate interpreter (a map, a generator, a mask ...)."""
+    def __init__(self, *desc):
+        self.desc = desc
+
+    def __neg__(self):
+        return _Sym('neg', self)
+
+    def __eq__(self, other):
+        return isinstance(other, _Sym) and self.desc == other.desc
+
+    def __hash__(self):
+        return hash(self.desc)
+
+    def __repr__(self):
+        return '%s(%s)' % (self.desc[0], ', '.join(map(repr, self.desc[1:]))) if len(self.desc) > 1 else str(self.desc[0])
+
+
 def gate_dispatch(run, f, direction, rule='R11.gate'):
-    """CliffordGate.forward / backward, path by path."""
+    """CliffordGate.forward / backward decided by executing the method (the checker's interpreter, symbolic maps) in every
+    configuration of the gate: generator given or not, own map given or not, other map given or not, global or local gate.
+    Required: a generator gate rotates by (+/-) the generator; otherwise the own map is applied when it is given, else the
+    inverse of the other map (which may be cached as the own map, nothing else), else a freshly drawn random map that is not
+    stored; the action goes through mask(self.qubits, obj.N) unless the gate is global."""
+    import itertools
+    from .. import mini
+    from ..exprnf import Undecidable
     own, other = ('forward_map', 'backward_map') if direction == 'forward' else ('backward_map', 'forward_map')
     obj = f.posparams[1]
     n = 0
-    for p, end, conds in live_paths(f):
-        if end == 'raise':
+    for has_gen, has_own, has_oth, glob in itertools.product((True, False), repeat=4):
+        heap = {'generator': _Sym('G') if has_gen else None, own: _Sym('OWN') if has_own else None,
+                other: _Sym('OTHER') if has_oth else None, 'n': 2, 'qubits': _Sym('Q'), 'device': _Sym('dev')}
+        objN = 2 if glob else 3
+        state = {}
+
+        def attr(nd, env, rec, heap=heap, objN=objN):
+            base = norm(nd.value)
+            if base == 'self' and nd.attr in heap:
+                return heap[nd.attr]
+            if base == obj and nd.attr == 'N':
+                return objN
+            raise Undecidable('attribute ' + norm(nd))
+
+        def call(nd, env, rec):
+            fn = nd.func
+            if isinstance(fn, ast.Attribute) and fn.attr == 'inverse' and not nd.args:
+                return _Sym('inv', rec(fn.value))
+            if isinstance(fn, ast.Attribute) and fn.attr in ('copy', 'clone') and not nd.args:
+                return _Sym('copy', rec(fn.value))
+            if isinstance(fn, ast.Name) and fn.id == 'random_clifford_map':
+                return _Sym('random', rec(nd.args[0]) if nd.args else None)
+            if isinstance(fn, ast.Name) and fn.id == 'mask':
+                return _Sym('mask', *[rec(a) for a in nd.args[:2]])
+            if isinstance(fn, ast.Attribute) and fn.attr in ('rotate_by', 'transform_by') and norm(fn.value) == obj:
+                args = [rec(a) for a in nd.args]
+                kw = {k.arg: rec(k.value) for k in nd.keywords}
+                state['acts'].append((fn.attr, args[0] if args else None, args[1] if len(args) > 1 else kw.get('mask'), nd))
+                return _Sym('obj')
+            raise Undecidable('call ' + norm(fn))
+
+        def on_store(t, v, env, value, heap=heap):
+            if isinstance(t, ast.Attribute) and norm(t.value) == 'self':
+                if v is Undecidable:
+                    raise Undecidable('value stored into self.' + t.attr)
+                heap[t.attr] = v
+                state['stores'].append((t.attr, v, t))
+
+        def on_expr(e, env, value):
+            value(e)      # calls on the object are recorded by the call hook
+        desc = '%s%s %s %s, %s gate' % (direction, '', 'generator' if has_gen else ('own map' if has_own else ('other map only' if has_oth else 'no maps')),
+                                         '' if has_gen or has_own or not has_oth else '', 'global' if glob else 'local')
+        def run_once(choices, heap=heap):
+            saved = dict(heap)
+            state['stores'], state['acts'] = [], []
+            try:
+                mini.execute(f.node, {obj: _Sym('obj')}, attr=attr, call=call, on_store=on_store, on_expr=on_expr, choices=choices)
+                return list(state['stores']), list(state['acts'])
+            finally:
+                heap.clear()
+                heap.update(saved)
+        try:
+            outcomes = list(mini.all_paths(run_once))
+        except Undecidable as e:
+            run.undecided(rule, f, desc, 'the method could not be interpreted in this configuration: %s' % e)
             continue
-        env = {}          # local name -> value text ; 'self.x' -> value text for attribute stores on the path
-        stores = []
-        calls = []
-        for s in p:
-            if isinstance(s, tuple):
-                continue
-            if isinstance(s, ast.Assign) and len(s.targets) == 1:
-                t = s.targets[0]
-                if isinstance(t, ast.Name):
-                    v = norm(s.value)
-                    env[t.id] = env.get(v, v)
-                elif isinstance(t, ast.Attribute) and norm(t.value) == 'self':
-                    env['self.' + t.attr] = norm(s.value)
-                    stores.append((t.attr, norm(s.value), s))
-            for c in ast.walk(s):
-                if isinstance(c, ast.Call) and isinstance(c.func, ast.Attribute) and c.func.attr in ('rotate_by', 'transform_by') \
-                        and norm(c.func.value) == obj:
-                    calls.append((c, dict(env)))
-        gen_known, _ = guards.entails(conds, [('self.generator is not None', True)])
-        gen_none, _ = guards.entails(conds, [('self.generator is not None', False)])
-        desc = ' and '.join(('' if pol else 'not ') + norm(t) for t, pol in conds)[:150]
-        n += 1
-        if len(calls) != 1:
-            run.violation(rule, f, 'path [%s]' % desc, 'the gate must act exactly once on the object on every path (found %d '
-                          'rotate_by/transform_by calls)' % len(calls))
-            continue
-        c, env_at = calls[0]
-        arg0 = norm(c.args[0]) if c.args else None
-        if gen_known:
-            want = 'self.generator' if direction == 'forward' else '-self.generator'
-            run.check(c.func.attr == 'rotate_by' and arg0 == want, rule, f, c,
-                      '%s of a generator gate must rotate by %s (found %s(%s))' % (direction, want, c.func.attr, arg0))
-            run.check(not stores, rule, f, c, 'a generator gate must not store maps while being applied')
-        elif gen_none:
-            val = env_at.get(arg0, arg0)
-            own_none, _ = guards.entails(conds, [('self.%s is None' % own, True)])
-            own_set, _ = guards.entails(conds, [('self.%s is None' % own, False)])
-            oth_none, _ = guards.entails(conds, [('self.%s is None' % other, True)])
-            oth_set, _ = guards.entails(conds, [('self.%s is None' % other, False)])
-            if c.func.attr != 'transform_by':
-                run.violation(rule, f, c, 'a gate without generator must apply a Clifford map')
-            elif own_set:
-                run.check(val == 'self.' + own, rule, f, c, '%s must apply self.%s when it is given (found %s)' % (direction, own, val))
-                run.check(not stores, rule, f, c, 'nothing may be stored when the %s is already known' % own)
-            elif own_none and oth_set:
-                run.check(val == 'self.%s.inverse()' % other, rule, f, c,
-                          '%s without a %s must apply the inverse of self.%s (found %s)' % (direction, own, other, val))
-                bad = [s for s in stores if not (s[0] == own and s[1] == 'self.%s.inverse()' % other)]
-                run.check(not bad, rule, f, c, 'only the lazily inverted %s may be cached: %s' % (own, [(a, b) for a, b, _ in bad]))
-            elif own_none and oth_none:
-                run.check(val.startswith('random_clifford_map(self.n'), rule + '.random', f, c,
-                          'a gate without generator and maps is a random gate: it must draw random_clifford_map(self.n) (found %s)' % val)
-                run.check(not stores, rule + '.random', f, c, 'a random gate is resampled at every call: the sampled map must not be '
-                          'stored on the gate (%s)' % [(a, b) for a, b, _ in stores])
-            else:
-                run.undecided(rule, f, c, 'path condition does not determine which maps are given: ' + desc)
-        else:
-            run.undecided(rule, f, c, 'path condition does not determine whether a generator is given: ' + desc)
-        # locality: no mask only for a global gate
-        has_mask = len(c.args) >= 2 or any(k.arg == 'mask' for k in c.keywords)
-        if has_mask:
-            m = c.args[1] if len(c.args) >= 2 else [k.value for k in c.keywords if k.arg == 'mask'][0]
-            txt = norm(m).replace(' ', '')
-            run.check(txt.startswith('mask(self.qubits,%s.N' % obj), 'R13.local', f, c,
-                      'a local gate acts through mask(self.qubits, %s.N): found %s' % (obj, norm(m)))
-        else:
-            glob, _ = guards.entails(conds, [('self.n == %s.N' % obj, True)])
-            run.check(glob, 'R13.local', f, c, 'acting without a mask is only allowed for a global gate (self.n == %s.N)' % obj)
+        for choices, (stores, acts) in outcomes:
+          n += 1
+          pdesc = desc + ('' if not choices else ' (undecidable tests taken as %s)' % choices)
+          _judge(run, rule, f, direction, own, other, obj, objN, glob, has_gen, has_own, has_oth, stores, acts, pdesc)
     return n
+
+
+def _judge(run, rule, f, direction, own, other, obj, objN, glob, has_gen, has_own, has_oth, stores, acts, desc):
+    if True:
+        if len(acts) != 1:
+            run.violation(rule, f, desc, 'the gate must act exactly once on the object (found %d rotate_by / transform_by calls)' % len(acts))
+            return
+        kind, what, m, node = acts[0]
+        if has_gen:
+            want = _Sym('G') if direction == 'forward' else _Sym('neg', _Sym('G'))
+            run.check(kind == 'rotate_by' and what == want, rule, f, node,
+                      '%s of a generator gate must rotate by %s (found %s(%r))' % (direction, 'self.generator' if direction == 'forward' else '-self.generator', kind, what))
+            run.check(not stores, rule, f, node, 'a generator gate must not store maps while being applied')
+        elif kind != 'transform_by':
+            run.violation(rule, f, node, 'a gate without generator must apply a Clifford map')
+        elif has_own:
+            run.check(what == _Sym('OWN'), rule, f, node, '%s must apply self.%s when it is given (found %r)' % (direction, own, what))
+            run.check(not stores, rule, f, node, 'nothing may be stored when the %s is already known' % own)
+        elif has_oth:
+            run.check(what == _Sym('inv', _Sym('OTHER')), rule, f, node,
+                      '%s without a %s must apply the inverse of self.%s (found %r)' % (direction, own, other, what))
+            bad = [(a, v) for a, v, _ in stores if not (a == own and v == _Sym('inv', _Sym('OTHER')))]
+            run.check(not bad, rule, f, node, 'only the lazily inverted %s may be cached: %s' % (own, bad))
+        else:
+            run.check(isinstance(what, _Sym) and what.desc[0] == 'random' and what.desc[1] == 2, rule + '.random', f, node,
+                      'a gate without generator and maps is a random gate: it must draw random_clifford_map(self.n) (found %r)' % (what,))
+            run.check(not stores, rule + '.random', f, node, 'a random gate is resampled at every call: the sampled map must not be '
+                      'stored on the gate (%s)' % [(a, v) for a, v, _ in stores])
+        if m is not None:
+            run.check(m == _Sym('mask', _Sym('Q'), objN), 'R13.local', f, node,
+                      'a local gate acts through mask(self.qubits, %s.N): found %r' % (obj, m))
+        else:
+            run.check(glob, 'R13.local', f, node, 'acting without a mask is only allowed for a global gate (self.n == %s.N)' % obj)
 
 
 def layer_application(run, f, direction, rule='R11.apply'):
